@@ -162,6 +162,25 @@ func c06Specs() map[string]*c06Spec {
 		}, tasks...)
 		m["when_changed-"+flow] = &c06Spec{pg: &Prog{Tasks: tasks}, dedup: map[string]*c06Task{"s": dt}}
 	}
+	// values swapped between two variables that reach the callee only through its env
+	{
+		s := &T{Name: "s", Run: "when_changed", Env: [][2]string{{"E1", "{{.FROM}}"}, {"E2", "{{.TO}}"}}, Cmds: []C{{ShExtra: "$E1-$E2"}, P()}}
+		ref := func(a, b string) Ref { return Ref{Task: "s", VP: "=", Vars: [][2]string{{"FROM", a}, {"TO", b}}} }
+		r1, r2 := ref("a", "b"), ref("b", "a")
+		m["when_changed-swapped-values-env"] = &c06Spec{pg: &Prog{Tasks: []*T{
+			{Name: "root", Deps: []Ref{D("x")}, Cmds: []C{{Call: &r2}, P()}},
+			{Name: "x", Cmds: []C{{Call: &r1}, P()}},
+			s,
+		}}, dedup: map[string]*c06Task{"s": {mode: "when_changed", keys: []string{"a-b", "b-a"}, flow: "swapped_env"}}}
+	}
+	// a run-once dep cancelled mid-way by a failing sibling, the invocation carries on
+	// (ignore_error) and references the task again: still at most one execution
+	m["once-cancelled-then-referenced"] = &c06Spec{pg: &Prog{Tasks: []*T{
+		{Name: "root", IgnoreError: true, Cmds: []C{Call("p"), CallS("s", "="), P()}},
+		{Name: "p", Deps: []Ref{DS("s", "="), D("x")}, Cmds: []C{P()}},
+		{Name: "x", Cmds: []C{P(), F()}},
+		{Name: "s", Run: "once", Cmds: []C{P(), P(), P()}},
+	}}, dedup: map[string]*c06Task{"s": {mode: "once", refs: 0}}}
 	return m
 }
 
